@@ -5,6 +5,8 @@ struct Ctx {
     drv: Driver,
     open: Vec<String>,
     known_counts: BTreeMap<String, u64>,
+    /// the implementation's dump lines of the history checked last
+    last_real: Vec<String>,
     k_fail: u64,
     d_fail: u64,
 }
